@@ -14,8 +14,15 @@ import (
 func pbServCtrlSerialize(ctrl *MsgServerCtrl) *pbx.ServerMsg_Ctrl {
 	var params map[string][]byte
 	if ctrl.Params != nil {
-		if in, ok := ctrl.Params.(map[string]any); ok {
+		switch in := ctrl.Params.(type) {
+		case map[string]any:
 			params = interfaceMapToByteMap(in)
+		case map[string]string:
+			// E.g. the redirect target of InfoUseOther.
+			params = make(map[string][]byte, len(in))
+			for key, val := range in {
+				params[key] = interfaceToBytes(val)
+			}
 		}
 	}
 
@@ -160,7 +167,7 @@ func pbServDeserialize(pkt *pbx.ServerMsg) *ServerComMessage {
 			DeletedAt: int64ToTime(data.GetDeletedAt()),
 			SeqId:     int(data.GetSeqId()),
 			Head:      byteMapToInterfaceMap(data.GetHead()),
-			Content:   data.GetContent(),
+			Content:   bytesToInterface(data.GetContent()),
 		}
 	} else if pres := pkt.GetPres(); pres != nil {
 		var what string
@@ -543,7 +550,8 @@ func timeToInt64(ts *time.Time) int64 {
 
 func int64ToTime(ts int64) *time.Time {
 	if ts > 0 {
-		res := time.Unix(ts/1000, ts%1000).UTC()
+		// ts is in milliseconds.
+		res := time.Unix(ts/1000, (ts%1000)*int64(time.Millisecond)).UTC()
 		return &res
 	}
 	return nil
@@ -601,6 +609,8 @@ func pbGetQueryDeserialize(in *pbx.GetQuery) *MsgGetQuery {
 	}
 	if sub := in.GetSub(); sub != nil {
 		msg.Sub = &MsgGetOpts{
+			User:            sub.GetUser(),
+			Topic:           sub.GetTopic(),
 			IfModifiedSince: int64ToTime(sub.GetIfModifiedSince()),
 			Limit:           int(sub.GetLimit()),
 		}
@@ -1143,6 +1153,7 @@ func pbServerCredsSerialize(in []*MsgCredServer) []*pbx.ServerCred {
 		out[i] = &pbx.ServerCred{
 			Method: cr.Method,
 			Value:  cr.Value,
+			Done:   cr.Done,
 		}
 	}
 
